@@ -1,6 +1,7 @@
-(* Props/C03.v *)
+(* Props/C03.v — crash recovery is atomic and prefix-consistent *)
 From Coq Require Import List NArith Arith Bool.
 From SKV Require Import Base.Lex Txn.WriteSet Spec.Store.
+From SKV Require Import Crash.Proto Crash.ProtoSpec Crash.ProtoRefute Crash.Proto_proofs.
 Import ListNotations.
 
 (* recovery as a specification: the state after the first n commits; states of longer prefixes
@@ -13,3 +14,21 @@ Proof.
   replace (S (length h)) with (length (h ++ [b])) by (rewrite app_length; cbn [length]; apply Nat.add_1_r).
   rewrite !firstn_all. rewrite fold_left_app. reflexivity.
 Qed.
+
+(* protocol level: after a crash at any cut of an accepted trace the recovered batches are exactly
+   the live batches below some bound in commit order, none of them in part; after a process crash
+   the bound is the number of logged batches *)
+Theorem C03_recover_is_prefix : recover_is_prefix_stmt.
+Proof. exact recover_is_prefix. Qed.
+
+Theorem C03_partial_batch_refuted : partial_batch_refuted_stmt.
+Proof. exact partial_batch_refuted. Qed.
+
+Theorem C03_flush_before_relog_refuted : flush_before_relog_refuted_stmt.
+Proof. exact flush_before_relog_refuted. Qed.
+
+Theorem C03_recovery_piece_unsynced_refuted : recovery_piece_unsynced_refuted_stmt.
+Proof. exact recovery_piece_unsynced_refuted. Qed.
+
+Theorem C03_p9_needed : p9_needed_stmt.
+Proof. exact p9_needed. Qed.
